@@ -143,6 +143,8 @@ def basic_input(ck, sh, mm, case):
         try:
             with symx.object_arrays():
                 m, srcs, sp, loads = _build(M, case, P)
+                # the same model was written for another BASIC version just before (units of the Laplace coefficients differ)
+                m.as_basic_input(_Args('12' if ver == '9' else '9'), azi=M.Angle(0.0, 10.0, 37), zen=M.Angle(0.0, 10.0, 10))
                 text = m.as_basic_input(_Args(ver), azi=M.Angle(0.0, 10.0, 37), zen=M.Angle(0.0, 10.0, 10))
             try:
                 model = Reader(text, num=tokens.read_field, version=ver).read()
@@ -267,6 +269,7 @@ def _same_pulses(mm, rd, m):
 def replay_basic(mm, case, P):
     gname, mk, lk, ver = CASES[case]
     m, srcs, sp, loads = _build(mm, case, P)
+    m.as_basic_input(_Args('12' if ver == '9' else '9'), azi=mm.Angle(0.0, 10.0, 37), zen=mm.Angle(0.0, 10.0, 10))
     text = m.as_basic_input(_Args(ver), azi=mm.Angle(0.0, 10.0, 37), zen=mm.Angle(0.0, 10.0, 10))
     rd_args = dict(kind='basic', case=case)
     try:
